@@ -27,7 +27,7 @@ ASSUMPTIONS = ['the documentation tables of the tree under test are the specific
                'propagate_fft refusing tilt-carrying wavefronts (NotImplementedError) is C09\'s rule, not a table entry']
 EXHAUSTIVE = True
 PLAN = {'quick': {'gen': 8}, 'thorough': {'gen': 16, 'tests': 1}}
-REQUIRED_BUCKETS = ['form:scalar+sampling', 'form:other-focal', 'form:reassigned', 'typed-tilt-class', 'start:none+focal', 'form:mismatch', 'copy-step', 'form:scalar', 'form:disjoint', 'start:none', 'start:pupil', 'start:image', 'len:1', 'len:2', 'len:3', 'random-long',
+REQUIRED_BUCKETS = ['form:scalar+sampling', 'form:other-focal', 'form:no-focal', 'form:reassigned', 'typed-tilt-class', 'start:none+focal', 'form:mismatch', 'copy-step', 'form:scalar', 'form:disjoint', 'start:none', 'start:pupil', 'start:image', 'len:1', 'len:2', 'len:3', 'random-long',
                     'cell:allowed', 'cell:refused', 'propagate:allowed', 'propagate:refused']
 REQUIRED_ANCHORS = ['anchor:_can_mul_ptype', 'anchor:_mul_result_ptype', 'anchor:_propagate_ptype', 'anchor:Image.multiply',
                     'anchor:PType.__eq__']
@@ -136,6 +136,9 @@ def make_plane(lentil, name, w, form='array'):
         return lentil.Plane(amplitude=a, pixelscale=ps)
     if name == 'Pupil':
         # (a second pupil of another focal length is the normal case of a relay: the product takes the new pupil's focal length)
+        if form == 'no-focal':
+            # a pupil-plane element that has nothing to say about the focal length (a stop, a mask): the wavefront keeps its own
+            return lentil.Pupil(amplitude=a, pixelscale=ps)
         return lentil.Pupil(amplitude=a, pixelscale=ps, focal_length=Z * 1.75 if form == 'other-focal' else Z)
     if name == 'Image':
         return lentil.Image(amplitude=a, pixelscale=ps)
@@ -251,12 +254,12 @@ def workload(ctx, lentil):
     # the same pairs with array-less planes that carry their own sampling, and with pupils whose focal length differs from the one
     # the wavefront already carries (relays, pupil -> image -> pupil round trips)
     k = 0
-    for form in ('scalar+sampling', 'other-focal'):
-        for start in ('none', 'pupil', 'image', 'none:focal'):
+    for form in ('scalar+sampling', 'other-focal', 'no-focal'):
+        for start in (('none', 'pupil', 'image', 'none:focal') if form != 'no-focal' else ('pupil', 'image', 'none:focal')):
             for L in range(1, 4):
                 for prog in itertools.product(['Plane', 'Pupil', 'Image', 'Tilt', 'propagate_dft', 'propagate_fft'], repeat=L):
                     k += 1
-                    if k % ctx.nshards != ctx.shard or 'Pupil' not in prog and form == 'other-focal':
+                    if k % ctx.nshards != ctx.shard or 'Pupil' not in prog and form in ('other-focal', 'no-focal'):
                         continue
                     ctx.case({'start': start, 'prog': list(prog), 'form': form}, [f'form:{form}'])
                     run_program(ctx, lentil, start, prog, traces, forms=[form] * L)
